@@ -14,7 +14,7 @@ pub fn def() -> CheckDef {
         meta: CheckMeta {
             id: "C12",
             level: "fault_enumeration",
-            rule: "files after n = 0..N commits (N = 6 quick / 16 thorough) of generated histories; target = newest or older header page; damage = every offset of the header page x {xor 0xFF, xor 0x01, set 0, one seeded value} (thorough: all 255 alternatives on every byte the format defines: offset 8 and 32-43, 48-103), zeroing the page, seeded multi-byte overwrites inside and outside the record, and tails from every 8-byte boundary filled with zeros / 0xFF / seeded bytes / the page's previous contents (a partially written header). Damages that leave the bytes unchanged are skipped. Oracle: opening a copy through the public API succeeds (no panic) and a full dump equals the state recorded by the intact header (S_n if the older header was hit, S_{n-1} if the newest was) whenever a byte the format defines changed; if only undefined bytes changed (page-header id/count/overflow, padding, bytes past the record) either state is accepted. Non-trivial = damage that changes a defined byte of the NEWEST header of a file whose last commit changed the state. Distinct = (file, target, damage).",
+            rule: "files after n = 0..N commits (N = 6 quick / 16 thorough) of generated histories; target = newest or older header page; damage = every offset of the header page x {xor 0xFF, xor 0x01, set 0, one seeded value} (thorough: all 255 alternatives on every byte the format defines: offset 8 and 32-43, 48-103), zeroing the page, every word-aligned range of the first 128 bytes zeroed (and short ranges / ranges to the end set to 0xFF), seeded multi-byte overwrites inside and outside the record, and tails from every 8-byte boundary filled with zeros / 0xFF / seeded bytes / the page's previous contents (a partially written header). Damages that leave the bytes unchanged are skipped. Oracle: opening a copy through the public API succeeds (no panic) and a full dump equals the state recorded by the intact header (S_n if the older header was hit, S_{n-1} if the newest was) whenever a byte the format defines changed; if only undefined bytes changed (page-header id/count/overflow, padding, bytes past the record) either state is accepted. Non-trivial = damage that changes a defined byte of the NEWEST header of a file whose last commit changed the state. Distinct = (file, target, damage).",
             assumptions: &[
                 "single-process open of a copy; the other header and all data pages are intact",
                 "a checksum collision under random multi-byte damage (2^-64) is ignored",
@@ -33,6 +33,8 @@ pub enum Damage {
     Multi { seed: u64, count: u8, in_record: bool },
     /// bytes from `off` to the end of the page replaced: fill 0 zeros, 1 0xFF, 2 seeded, 3 previous contents of the page
     Tail { off: usize, fill: u8 },
+    /// bytes [from, to) set to `val` (word-aligned ranges inside the first 128 bytes)
+    Fill { from: usize, to: usize, val: u8 },
 }
 
 #[derive(Serialize, Deserialize, Clone, Debug)]
@@ -110,6 +112,11 @@ pub fn apply(p: &Prepared, newest: bool, d: &Damage) -> (Vec<u8>, bool, bool) {
             for _ in 0..*count {
                 let off = if *in_record { 32 + r.below(72) as usize } else { r.below(p.ps as u64) as usize };
                 b[base + off] = r.next() as u8;
+            }
+        }
+        Damage::Fill { from, to, val } => {
+            for i in *from..(*to).min(p.ps) {
+                b[base + i] = *val;
             }
         }
         Damage::Tail { off, fill } => {
@@ -223,6 +230,15 @@ pub fn damages(tier: Tier, ps: usize, seed: u64) -> Vec<Damage> {
             v.push(Damage::Tail { off, fill });
         }
     }
+    // every word-aligned range inside the page header + record zeroed / set to 0xFF
+    for a in (0..128).step_by(8) {
+        for z in ((a + 8)..=128).step_by(8) {
+            v.push(Damage::Fill { from: a, to: z, val: 0 });
+            if (z - a) <= 16 || z == 128 {
+                v.push(Damage::Fill { from: a, to: z, val: 0xff });
+            }
+        }
+    }
     for off in [256usize, 512, 768] {
         if off < ps {
             for fill in 0..4u8 {
@@ -281,6 +297,7 @@ fn shard(ctx: &ShardCtx, known: &Known) -> ShardOut {
                         Damage::Xor { .. } | Damage::Set { .. } => "single byte".to_string(),
                         Damage::ZeroPage => "zeroed page".to_string(),
                         Damage::Multi { .. } => "multi-byte overwrite".to_string(),
+                        Damage::Fill { .. } => "word-aligned range zeroed / set".to_string(),
                         Damage::Tail { fill: 3, .. } => "tail = previous page contents (torn write)".to_string(),
                         Damage::Tail { .. } => "tail overwrite".to_string(),
                     });
